@@ -301,6 +301,13 @@ class C15(Check):
                   'literals, line comments up to the line break, block comments whose line breaks stay) by stripComments_follows_comment_grammar '
                   '(soundness: every cut of a text by the grammar is what the machine produces; that every text has a cut is not proved). After a successful call on a reused Parser the error getters still show the '
                   'previous failure (theorem parser_error_fields states it; not part of the property). '
+                  'Scope of the spec oracle (what a failing input is claimed for): success / failure, the tree, equality after the round trip, the stripped '
+                  'bytes, and that a reported line and column are the coordinates of an offset of the text. The WORDING of error messages is never judged: '
+                  'it is a model-only detail (the model prints the messages of the current source; a reworded message shows up as a model/implementation '
+                  'difference without a failing input). For the static wrappers, whose only report is the text in Error::getErrorString(), the two numbers '
+                  'are read out of that text independently of its wording (position_in_message: the numbers behind the words line and column, else the first '
+                  'two free-standing integers); a text from which no position can be read is not judged, except the harness\'s own sentinel (the wrapper '
+                  'returned false without reporting anything). '
                   'Trusted: Coq kernel, JsonSpec.v (position_inside, reference_strip_from, in_class/value_eq/canon), extraction + OCaml '
                   'driver, harness (it compares the answers of a reused Parser / non-empty target with those of fresh ones itself), generators. '
                   'The theorems are about the model; the tie to the code is differential.')
